@@ -423,7 +423,8 @@ def build(spec, model=None, **kw):
 
 def _build(spec, model=None, holder=None, order_seed=None, codes=None, ckey_map=None, solve=True, ext_first=None,
           max_iter=3000, unused_ext=False, tol=None, order_perm=None, codes_after_first_country=False,
-           query_zone=False, interleave_model=False, region_default_currency=False, run_via_steps=False):
+           query_zone=False, interleave_model=False, region_default_currency=False, run_via_steps=False,
+           mutate_returned_lists=False):
     """Build (and solve) the model described by spec with the REAL classes.
 
     order_seed: None = canonical declaration order; int = a random linear extension per country.
@@ -724,6 +725,25 @@ def _build(spec, model=None, holder=None, order_seed=None, codes=None, ckey_map=
             else:
                 sec.AddVariable(var, 'link of a parameter chain', '%s + %s' % (prev[0].GetVariableName(prev[1]), pc['steps'][i]))
             prev = (sec, var)
+    if mutate_returned_lists:
+        # a caller prunes / empties the lists the getters hand out (for a report, say): that is the caller's copy
+        for sec in list(S.values()):
+            for getter in (sec.GetVariables, sec.EquationBlock.GetEquationList):
+                try:
+                    lst = getter()
+                    if isinstance(lst, list):
+                        del lst[:]
+                except Exception:
+                    pass
+        for getter in (mod.GetSectors,):
+            lst = getter()
+            if isinstance(lst, list):
+                del lst[:]
+        for cz in list(getattr(mod, 'CurrencyZoneList', [])):
+            lst = cz.GetSectors()
+            if isinstance(lst, list):
+                del lst[:]
+        b.lists_mutated = True
     mod.MaxTime = spec['maxtime']
     mod.EquationSolver.MaxIterations = max_iter
     if tol is not None:
